@@ -31,7 +31,8 @@ def parse_lazy_complete(inp):
     """Lazy parsing driven to completion by a dry-run traversal of the real code (default schedule)."""
     from vt.e1 import engine
 
-    scn = engine.Scenario("lazy:" + inp["id"], inp["restriction"], inp["nets"], lazy=True, vm_strs=dict(inp["vm_strs"]), params={"dry_run": "yes"})
+    scn = engine.Scenario("lazy:" + inp["id"], inp["restriction"], inp["nets"], lazy=True, vm_strs=dict(inp["vm_strs"]), params={"dry_run": "yes"},
+                          suite="mini" + ("+" + inp["variant"] if inp.get("variant") else ""))
     x = engine.execute(scn, [], keep_graph=True)
     return x
 
@@ -54,6 +55,7 @@ def analyse(job):
     out["nodes"] = len(facts["nodes"])
     out["composites"] = sum(1 for n in facts["nodes"] if not n["flat"])
     out["clone_sources"] = sum(1 for n in facts["nodes"] if n["clone_source"])
+    out["multi_object_edges"] = sum(1 for n in facts["nodes"] for objs in n["setup"].values() if len(objs) > 1)
     if mode == "C06":
         out["errors"] += parsemc.wellformed(facts)
         # lazy parsing must produce a well-formed graph as well
@@ -188,6 +190,31 @@ def run_parse_check(prop, tier, seed, technique, rule, assumptions):
             rep.violation(f"[{res['id']}] {msg}", {"input": res["id"], "kind": kind, "message": msg}, {"kind": kind})
         if len(rep.samples) < 3 and res["nodes"]:
             rep.sample({"input": res["id"], "nodes": res["nodes"], "composite_nodes": res["composites"], "clone_sources": res["clone_sources"]})
+    # suite variants: the same oracles on the suite customised through the user's overwrite config (graph shapes the sample suite lacks)
+    global _universe
+    vrows = []
+    for vname, vtext, _ in parsemc.SUITE_VARIANTS:
+        common.bootstrap("mini", tests_overwrite=vtext)
+        _universe = None
+        universe()
+        vins = [i for i in parsemc.variant_inputs(tier) if i["variant"] == vname]
+        for res in common.pimap_unordered(analyse, [(i, prop) for i in vins]):
+            rep.evaluations += 1
+            rep.transitions += max(res["nodes"], 1)
+            rep.states += res["nodes"]
+            if res["skipped"]:
+                vrows.append({"input": res["id"], "skipped": res["skipped"]})
+                continue
+            rep.traces_validated += 1
+            rep.distinct.add((res["id"], res["nodes"], res["composites"]))
+            vrows.append({"input": res["id"], "nodes": res["nodes"], "composite": res["composites"], "multi_object_edges": res.get("multi_object_edges"),
+                          "problems": len(res["errors"])})
+            for kind, msg in res["errors"]:
+                rep.violation(f"[{res['id']}] {msg}", {"input": res["id"], "kind": kind, "message": msg}, {"kind": kind})
+    common.bootstrap("mini")
+    _universe = None
+    universe()
+    rep.sections["suite_variants"] = vrows
     if prop == "C09":
         # lazy expansion under all schedules within k deviations (the order in which workers unroll flat tests is the traversal schedule)
         from vt.e1 import scenarios as S
